@@ -3,7 +3,8 @@ import SleapVerif.Model.Config
 /-!
 Driver for C20 (stateful: the class-default environment is sent first, as data).
 
-Tree tokens:  `n` | `T` | `F` | `i<int>` | `f<rat>` | `s<text>` | `L <k> v1 … vk` |
+Tree tokens:  `n` | `T` | `F` | `i<int>` | `f<rat>` | `fnan` | `finf` | `f-inf` | `s<text>` | `L <k> v1 … vk` |
+              `U <k> v1 … vk` (tuple argument; printed back as `L`) |
               `N <k> key1 t1 … keyk tk`
 (text and keys are percent-encoded by the harness so that they contain no blanks; the model never
 decodes them — plain identifiers are their own encoding).
@@ -38,6 +39,13 @@ partial def pValue : P Value := do
       | j+1 => do let v ← pValue; let r ← go j; pure (v :: r)
     let l ← go k
     pure (.list l)
+  else if t = "U" then do
+    let k ← nat
+    let rec goU : Nat → P (List Value)
+      | 0 => pure []
+      | j+1 => do let v ← pValue; let r ← goU j; pure (v :: r)
+    let l ← goU k
+    pure (.tuple l)
   else match t.front with
     | 'i' => match parseInt? (t.drop 1).toString with
       | some i => pure (.int i)
@@ -71,6 +79,8 @@ partial def valueStr : Value → String
   | .inf true => "f-inf"
   | .str s => "s" ++ s
   | .list l => " ".intercalate (["L", toString l.length] ++ l.map valueStr)
+  -- `OmegaConf.structured` (the observation point) stores a tuple as a list
+  | .tuple l => " ".intercalate (["L", toString l.length] ++ l.map valueStr)
 
 partial def cfgStr : Cfg → String
   | .leaf v => valueStr v
